@@ -150,7 +150,7 @@ Definition aw_next (aw : list N) (e : env_step) (f : frame) : list N :=
 
 Definition state_next (st : state) (e : env_step) (f : frame) : state :=
   mkState (aw_next (s_aw st) e f)
-          (s_closed_seen st || (f_typ f =? MsgCloseConnectionResponse)).
+          (s_closed_seen st || ((f_typ f =? MsgCloseConnectionResponse) && e_close_sent e)).
 
 (* what the code is supposed to do with one complete frame, written declaratively *)
 Definition expected_dispatch (aw : list N) (e : env_step) (f : frame) : dispatch :=
